@@ -101,7 +101,8 @@ Section Loop.
     let n := match a with Ans _ _ _ k => k | Fail k => k end in
     let '(ab, k) := inner_checks c clk s p n in
     let failres := (cur s, 2 * (1 / dt), false, k) in
-    if ab then failres
+    (* a trial abandoned because the deadline passed is not a failed trial: point and step size are left alone *)
+    if ab then (cur s, 1 / dt, false, k)
     else match a with
          | Ans nx l acc _ => (nx, l, acc, k)
          | Fail _ => failres
